@@ -8,6 +8,7 @@ import PMC.Model.Kripke
 import PMC.Model.CTL
 import PMC.Model.LTL
 import PMC.Model.CTLS
+import PMC.Model.BDD
 open PMC
 
 /-! ### decoding -/
@@ -133,6 +134,115 @@ def encKripkeD (K : KripkeD Nat) : String :=
     ";".intercalate (labs.map (fun p =>
       s!"{p.1}:" ++ " ".intercalate ((p.2.map encName).toArray.qsort (· < ·)).toList))
 
+
+/-! ### BDD histories -/
+open PMC.BDD in
+partial def parseBExp : List String → Option (BExp × List String)
+  | "bad" :: r => some (.bad, r)
+  | "(" :: "c" :: b :: ")" :: r => some (.const (b == "1"), r)
+  | "(" :: "v" :: i :: ")" :: r => some (.var i.toNat?, r)
+  | "(" :: op :: r =>
+    if op == "and" || op == "or" then
+      match parseBExps r with
+      | some (es, r') => some (if op == "and" then .and es else .or es, r')
+      | none => none
+    else if op == "band" || op == "bor" then
+      match parseBExp r with
+      | some (a, r1) => match parseBExp r1 with
+        | some (b, ")" :: r2) => some (if op == "band" then .band a b else .bor a b, r2)
+        | _ => none
+      | none => none
+    else if op == "not" then
+      match parseBExp r with
+      | some (a, ")" :: r1) => some (.not a, r1)
+      | _ => none
+    else none
+  | _ => none
+where
+  parseBExps : List String → Option (List BExp × List String)
+    | ")" :: r => some ([], r)
+    | ts => match parseBExp ts with
+      | some (e, r) => match parseBExps r with
+        | some (es, r') => some (e :: es, r')
+        | none => none
+      | none => none
+
+open PMC.BDD in
+def encTree : BDD → String
+  | .leaf b => if b then "1" else "0"
+  | .node v lo hi => s!"( {v} {encTree lo} {encTree hi} )"
+
+open PMC.BDD in
+partial def encBExp : BExp → String
+  | .const b => if b then "( c 1 )" else "( c 0 )"
+  | .var (some i) => s!"( v {i} )"
+  | .var none => "( v - )"
+  | .not e => "( not " ++ encBExp e ++ " )"
+  | .band a b => "( band " ++ encBExp a ++ " " ++ encBExp b ++ " )"
+  | .bor a b => "( bor " ++ encBExp a ++ " " ++ encBExp b ++ " )"
+  | .and es => "( and " ++ " ".intercalate (es.map encBExp) ++ " )"
+  | .or es => "( or " ++ " ".intercalate (es.map encBExp) ++ " )"
+  | .bad => "bad"
+
+open PMC.BDD in
+def dedupTrees (l : List BDD) : List BDD := l.foldl (fun acc t => if acc.contains t then acc else t :: acc) []
+
+open PMC.BDD in
+/-- run one history; the pool holds `none` for dropped / failed slots -/
+def bddHistory (names : Array String) (ops : List String) : List String :=
+  let name := fun i => names.getD i "?"
+  let get (pool : Array (Option BDD)) (i : String) : Option BDD := (i.toNat?.bind (fun i => pool.getD i none))
+  let (_, outs) := ops.foldl (fun (st : Array (Option BDD) × List String) op =>
+    let (pool, outs) := st
+    let ws := words op
+    let push (r : Option BDD) (o : String) := (pool.push r, o :: outs)
+    match ws with
+    | "new" :: e =>
+      (match parseBExp e with
+       | some (e, []) => (match build e with
+          | .ok t => push (some t) (encTree t)
+          | .error .runtimeError => push none "ERR RuntimeError"
+          | .error .syntaxError => push none "ERR SyntaxError")
+       | _ => push none "bad-exp")
+    | [bop, i, j] =>
+      (match get pool i, get pool j with
+       | some a, some b =>
+         if bop == "and" then let t := band a b; push (some t) (encTree t)
+         else if bop == "or" then let t := bor a b; push (some t) (encTree t)
+         else if bop == "xor" then let t := bxor a b; push (some t) (encTree t)
+         else if bop == "eq" then (pool, toString (decide (a = b)) :: outs)
+         else (pool, "bad-op" :: outs)
+       | _, _ => (pool, "bad-ref" :: outs))
+    | ["inv", i] =>
+      (match get pool i with
+       | some a => let t := invert a; push (some t) (encTree t)
+       | none => (pool, "bad-ref" :: outs))
+    | ["restrict", i, v, b] =>
+      (match get pool i, v.toNat? with
+       | some a, some v => let t := restrict v (b == "1") a; push (some t) (encTree t)
+       | _, _ => (pool, "bad-ref" :: outs))
+    | ["drop", i] =>
+      (match i.toNat? with
+       | some i => (if i < pool.size then pool.set! i none else pool, "ok" :: outs)
+       | none => (pool, "bad-ref" :: outs))
+    | ["str", i] =>
+      (match get pool i with
+       | some a => (pool, printStr name a :: outs)
+       | none => (pool, "bad-ref" :: outs))
+    | ["exp", i] =>
+      (match get pool i with
+       | some a => (pool, encBExp (printExp a) :: outs)
+       | none => (pool, "bad-ref" :: outs))
+    | ["support", i] =>
+      (match get pool i with
+       | some a => (pool, encSet (support a) :: outs)
+       | none => (pool, "bad-ref" :: outs))
+    | ["nodes"] =>
+      let live := dedupTrees ((pool.toList.filterMap id).flatMap subtrees)
+      (pool, toString live.length :: outs)
+    | _ => (pool, "bad-op" :: outs)) (#[], [])
+  outs.reverse
+
 /-! ### dispatch -/
 
 def step (line : String) : String :=
@@ -189,6 +299,8 @@ def step (line : String) : String :=
       (match decLogic m, decFm f, decFm g with
        | some m, some f, some g => s!"{Fm.pyEq m f g} {f.beq g}"
        | _, _, _ => "bad-op")
+  | ["BDD", names, ops] =>
+      " ; ".intercalate (bddHistory (words names).toArray ((ops.splitOn ";").map (·.trimAscii.toString)))
   | _ => "bad-op"
 
 partial def loop (h : IO.FS.Stream) (out : IO.FS.Stream) : IO Unit := do
